@@ -33,7 +33,7 @@ Lists == [ L1 |-> <<5, 3, 5, 70, 3>>, L2 |-> <<65535, 0, 65535>>, L3 |-> [i \in 
 
 Mutators == {"Add", "Remove", "AddRange", "RemoveRange", "Clear", "AddMany"}
 Binary == {"Or", "And", "Xor", "AndNot", "ROr", "RAnd", "RXor", "RAndNot"}
-Neutral == {"Clone", "Codec", "Optimize"}   \* Optimize may change the container, never the set
+Neutral == {"Clone", "Codec", "Optimize", "AsRuns"}   \* Optimize may change the container, never the set
 
 \* [set |-> new content, ret |-> what a mutating call must report (TRUE if it reports nothing)]
 Apply(S, o) ==
